@@ -157,6 +157,61 @@ def equality_table(lib, f, fields, disc=None, disc_values=(None,), other=None):
     return rows, ''
 
 
+def equality_table_interp(lib, f, cls, fields, disc=None, disc_values=(None,), other=None):
+    """The same table by typed interpretation (E-SEQ) of operator== on two objects of the class: a field of class type holds the
+    value in every integer member of it, a field of pointer type points to one of two marker objects.  Used where the path summary
+    of the operator reads more than the fields of its operands (a kind looked up in a constant table, a helper function)."""
+    import itertools
+    from .aeval import AEval, AObj, CxxModule, Raised, cxx_object
+    mod = CxxModule(lib, ['ace_time::'])
+    ftype = {n: (t or '') for n, t, _x in lib.fields(cls)}
+    markers = [AObj({}, oid='target0', cls='marker'), AObj({}, oid='target1', cls='marker')]
+
+    def fill(o, v):
+        for k_, x in list(o.attrs.items()):
+            if isinstance(x, AObj):
+                fill(x, v)
+            elif isinstance(x, list):
+                o.attrs[k_] = [v for _ in x]
+            elif k_ in getattr(o, 'ptrs', ()):
+                o.attrs[k_] = markers[v]
+            else:
+                o.attrs[k_] = v
+
+    def make(assign, dv):
+        o = cxx_object(lib, cls)
+        for n, v in assign.items():
+            cur = o.attrs.get(n)
+            if isinstance(cur, AObj):
+                fill(cur, v)
+            elif '*' in ftype.get(n, ''):
+                o.attrs[n] = markers[v]
+            else:
+                o.attrs[n] = v
+        if disc:
+            o.attrs[disc] = dv
+        return o
+    rows = []
+    fl = sorted(fields)
+    full = len(fl) <= 6
+    for dv in disc_values:
+        for db in ((dv, other) if disc else (None,)):
+            if full:
+                combos = itertools.product((0, 1), repeat=2 * len(fl))
+            else:
+                combos = [tuple(0 for _ in range(2 * len(fl)))] + [tuple(1 if j == i else 0 for j in range(2 * len(fl))) for i in range(2 * len(fl))]
+            for combo in combos:
+                oa = make({n: combo[2 * i] for i, n in enumerate(fl)}, dv)
+                ob_ = make({n: combo[2 * i + 1] for i, n in enumerate(fl)}, db)
+                try:
+                    r = AEval(module=mod, typed=True, max_steps=20000).call_function(f.name, [oa, ob_], chosen=CxxModule._Fn(f))
+                    res = 1 if AEval.truth(r) else 0
+                except Raised:
+                    res = None
+                rows.append((dv, db, {n: (combo[2 * i], combo[2 * i + 1]) for i, n in enumerate(fl)}, res))
+    return rows, ''
+
+
 def equality_rules(R, lib, consts):
     R.rule('R3', 'operator== is true exactly when the kinds agree and every field of the active arm agrees (evaluated on every 0/1 assignment of the fields)', floor=10)
     for cls in ('LocalDate', 'LocalTime', 'LocalDateTime', 'OffsetDateTime', 'ZonedDateTime', 'TimeOffset', 'TimePeriod'):
@@ -169,6 +224,8 @@ def equality_rules(R, lib, consts):
         f = fs[0]
         fields = {n for n, _t, _x in lib.fields('ace_time::' + cls)}
         rows, why = equality_table(lib, f, fields)
+        if rows is None or any(r_[3] is None for r_ in rows):
+            rows, why = equality_table_interp(lib, f, 'ace_time::' + cls, fields)
         R.instance('R3', c, f.loc, '%d assignments' % (len(rows) if rows else 0))
         if rows is None:
             R.violation('R3', c, f.loc, why)
@@ -194,6 +251,8 @@ def equality_rules(R, lib, consts):
         vals = {name: consts[pref + name] for name in arms}
         other = max(vals.values()) + 1
         rows, why = equality_table(lib, f, allf, disc=disc, disc_values=sorted(set(vals.values())), other=other)
+        if rows is None or any(r_[3] is None for r_ in rows):
+            rows, why = equality_table_interp(lib, f, cls, allf, disc=disc, disc_values=sorted(set(vals.values())), other=other)
         c0 = 'operator==(%s):discriminator' % short
         R.instance('R3', c0, f.loc)
         if rows is None:
